@@ -346,3 +346,7 @@ lazy_static::lazy_static! {
     static ref UNICODE_TO_PETSCII: std::collections::HashMap<u8,u8> = CHAR_TABLE.into_iter().collect();
     static ref PETSCII_TO_UNICODE: std::collections::HashMap<u8,u8> = CHAR_TABLE.into_iter().map(|(k, v)| (v, k)).collect();
 }
+
+#[cfg(any(kani, icy_engine_verif))]
+#[path = "/verif/kc/petscii_harness.rs"]
+mod verif_kani;
